@@ -28,7 +28,8 @@ def run(ctx):
                             "assigned only in update_expired_state under enable_expired_check && is_expired() with state() == Complete", "E3 decision table + DOM")
     f = prog.fn(FR + "::is_expired")
     ctx.analysed(f.path)
-    t = polarity.Table(f, name_sign={"d": r"get_server_time"}, name_bool={"exp_some": r"expires is Some"})
+    # the instance's expiry is read as `inner.expires` or through the accessor get_expiration_time() (checked below to return that field)
+    t = polarity.Table(f, name_sign={"d": r"get_server_time"}, name_bool={"exp_some": r"(expires|FdtReceiver::get_expiration_time\(&self\)) is Some"})
     o = 1
     for k, lab in t.seen_sign.items():
         if lab == "d":
@@ -42,8 +43,13 @@ def run(ctx):
     for k, lab in t.seen_sign.items():
         if lab == "d":
             txt = polarity.show_key(k)
-            if re.search(r"get_server_time\(&self, now\)", txt) and "expires" in txt:
+            if re.search(r"get_server_time\(&self, now\)", txt) and ("expires" in txt or "FdtReceiver::get_expiration_time(&self)@Some.0" in txt):
                 cmp_ok = True
+    if "get_expiration_time" in " ".join(polarity.show_key(k) for k in t.seen_sign):
+        ge = prog.funcs.get(FR + "::get_expiration_time")
+        gets = [show(Slicer(ge.body).expand(e_), 200) for _b, e_ in ret_assign_blocks(ge.body, lambda e_: True)] if ge is not None else []
+        if not (gets and all(re.search(r"\.expires$", z_) for z_ in gets)):
+            cmp_ok = False
     if cmp_ok:
         r1.ok("is_expired compares get_server_time(now) with expires", "", loc(f.sp))
     else:
